@@ -350,6 +350,36 @@ func allChoices(nl, nr int) [][]bool {
 	return out
 }
 
+// overtaking reports whether a script has a retraction with no earlier insertion of an equal row that is certain to be
+// processed first (an insertion without event time, or, when both carry one, with an event time not after the retraction's).
+func overtaking(ms []Msg) bool {
+	type ins struct {
+		key string
+		et  time.Time
+	}
+	var seen []ins
+	for _, m := range ms {
+		if m.Kind != kRec {
+			continue
+		}
+		k := lib.CoqValues(m.Rec.Values)
+		if !m.Rec.Retraction {
+			seen = append(seen, ins{k, m.Rec.EventTime})
+			continue
+		}
+		safe := false
+		for _, i := range seen {
+			if i.key == k && (i.et.IsZero() || (!m.Rec.EventTime.IsZero() && !i.et.After(m.Rec.EventTime))) {
+				safe = true
+			}
+		}
+		if !safe {
+			return true
+		}
+	}
+	return false
+}
+
 // ---- rendering ----
 
 func coqMsg(m Msg) string {
@@ -467,6 +497,12 @@ func addCase(cf *lib.CaseFile, cfg config, left, right []Msg, choice []bool) {
 	}
 	if obs.note != "" {
 		cf.Violation(idx, "schedule replay broke: "+obs.note, "")
+	}
+	if obs.status == 2 && (overtaking(left) || overtaking(right)) {
+		// known finding: the node panics (EventTimes[1:]) when a retraction is processed before the insertion it retracts
+		cf.SetClass(idx, "retraction-overtakes-insertion")
+		cf.Violation(idx, "the join panicked on a changelog whose retraction can overtake its insertion (no event time, or an earlier event time than every earlier insertion of the row)", "retraction-overtakes-insertion")
+		cf.Count("panic_retraction_overtakes_insertion")
 	}
 }
 
